@@ -526,6 +526,14 @@ def run_r2(repo: Repo, res: Result) -> None:
     base = f"{f.relpath}::{f.qualname}::"
     rets = [s for s in own_nodes(view.node) if isinstance(s, ast.Return) and s.value is not None]
     parts = _tuple_parts(fn, rets[0].value) if len(rets) == 1 else None
+    if len(rets) > 1:
+        # several exits: at least none of them may bypass the unmatched-pattern test
+        rs = [s for s in own_nodes(view.node) if isinstance(s, ast.Raise) and s.exc is not None and _raised_class(fn, s.exc).endswith(".ImpossibleMatch")]
+        cfg = cfg_of(view)
+        free = [r for r in rets if not any(cfg.dominates(_if_of(x), r) for x in rs)]
+        if free and not all(isinstance(e, (ast.List, ast.Tuple, ast.Dict)) and not getattr(e, "elts", getattr(e, "keys", None)) for e in (_tuple_parts(fn, free[0].value) or [free[0].value])):
+            res.add("C11.R2", base + "no-match raises", False, f"`{header(free[0])[:80]}` returns a conversion result without the unmatched-pattern test having been made: a regex matching nothing does not raise ImpossibleMatch before the conversion result is returned", where(view, free[0]), kind="dominance")
+            return
     if parts is None or len(parts) != 2:
         res.undecide("C11.R2", base + "result", "expected a single `return <filters>, <mapping>`", where(view, rets[0] if rets else view.node))
         return
@@ -622,8 +630,12 @@ def _no_match_raises(repo: Repo, view: FuncInfo, fn: Fn, co: Collections, raises
     if len(lits) != 1 or not lits[0][1]:
         return False, f"ImpossibleMatch is raised under `{' and '.join(('' if p else 'not ') + show(l) for l, p in lits) or 'no condition'}`, not exactly when the set of unmatched patterns is non-empty"
     u = lits[0][0]
-    if isinstance(u, ast.Compare) and len(u.ops) == 1 and isinstance(u.ops[0], ast.Gt) and isinstance(u.left, ast.Call) and isinstance(u.left.func, ast.Name) and u.left.func.id == "len" and isinstance(u.comparators[0], ast.Constant) and u.comparators[0].value == 0:
-        u = u.left.args[0]
+    if isinstance(u, ast.Compare) and len(u.ops) == 1 and isinstance(u.left, ast.Call) and isinstance(u.left.func, ast.Name) and u.left.func.id == "len" and len(u.left.args) == 1 and isinstance(u.comparators[0], ast.Constant):
+        k = u.comparators[0].value
+        if (isinstance(u.ops[0], ast.Gt) and k == 0) or (isinstance(u.ops[0], ast.GtE) and k == 1):
+            u = u.left.args[0]
+        else:
+            return False, f"ImpossibleMatch is raised under `{show(u)}`, not whenever some pattern matched nothing"
     if not isinstance(u, ast.Name):
         return None, f"the condition `{show(u)}` of the raise is not the truthiness of a collection"
     cfg = cfg_of(view)
@@ -667,7 +679,8 @@ def _no_match_raises(repo: Repo, view: FuncInfo, fn: Fn, co: Collections, raises
             if not pol and isinstance(lit, ast.Compare) and isinstance(lit.ops[0], ast.In) and _is_identifier_of(lit.left, v):
                 got = _matched_keys(fn, co, lit.comparators[0], modules_p, arch_p)
                 return (True, "") if got is True else got
-        return None, f"the unmatched set `{u.id}` is `{du.contribs[0].text()[:100]}` - not recognised"
+        extra = [f"{'' if p else 'not '}{show(l)}" for rest in rests for l, p in rest]
+        return False, f"the unmatched set `{u.id}` does not start from all regex filters (only those with `{' and '.join(extra[:2])}`)"
     return None, f"the unmatched set `{u.id}` is `{du.contribs[0].text()[:100]}` - not recognised"
 
 
@@ -739,6 +752,15 @@ def _ctor_arg(fn: Fn, call: ast.Call, field_name: str) -> ast.AST | None:
     return None
 
 
+def _builds_filter(fn: Fn, e: ast.AST) -> bool:
+    for c in ast.walk(e):
+        if isinstance(c, ast.Call):
+            ci = fn.repo.classes.get(_ctor_class(fn, c))
+            if ci is not None and any(x.name == "ModuleFilter" for x in fn.repo.mro(ci)):
+                return True
+    return False
+
+
 def _self_sinks(view: FuncInfo) -> list[tuple[ast.AST, ast.AST]]:
     """(statement, stored value) for every store into state reachable from `self`."""
     out = []
@@ -771,7 +793,7 @@ def run_r3(repo: Repo, res: Result) -> None:
     unknown: list[str] = []
     for stmt, value in _self_sinks(view):
         d = co.normalise(co.describe(value))
-        mine = [c for c in d.contribs if any(b.root and dotted(b.source) == param for b in c.binders) or (not c.binders and c.elt is not None and param in names_loaded(c.elt))]
+        mine = [c for c in d.contribs if any(param in names_loaded(b.source) for b in c.binders) or (c.elt is not None and (param in names_loaded(c.elt) or _builds_filter(fn, c.elt)))]
         if mine:
             relevant.append((stmt, d.contribs))
             unknown += d.unknown
@@ -788,7 +810,7 @@ def run_r3(repo: Repo, res: Result) -> None:
     for stmt, contribs in relevant:
         for c in contribs:
             if len(c.binders) > 1 or (c.binders and not (c.binders[0].root and dotted(c.binders[0].source) == param)):
-                bad.append(f"`{norm(stmt, 70)}` stores filters that are not built from the elements of `{param}` alone")
+                bad.append(f"`{norm(stmt, 70)}` stores filters built from `{', '.join(norm(b.source, 40) for b in c.binders)}`, not from every element of `{param}`")
                 continue
             if c.binders and len(c.binders[0].names) != 1:
                 bad.append(f"`{norm(stmt, 70)}`: elements of `{param}` are unpacked")
